@@ -383,7 +383,7 @@ prop('C10', obligations=['Props/C10.vo'],
      suites=[dict(name='fields', project=ident, definitive=True, what='reported field set (or refusal) differs from the proved analysis model')],
      rule='every accepted sequence of up to 4 lexemes over an 18-lexeme alphabet, random programs with dotted paths, calls, assignments, '
           'conditionals, arrays, typeof, spread; sets compared sorted; sufficiency judged on the implementation (full vs restricted data map)')
-prop('C11', obligations=['Props/C11.vo'],
+prop('C11', obligations=['Props/C11.vo', 'Tie/BuiltinsTie.vo'],
      suites=[dict(name='bridge', project=proj_eval_calls, definitive=True, what='call/no-call, converted arguments or outcome differ from the proved bridge model')],
      rule='all signatures with 0..1 parameters over 19 parameter types x context x variadic, every argument list of length 0..1 (0..2 for '
           'variadic) over a 21-value grid with and without spread; result kinds x failing x result count; random signatures of up to 3 '
@@ -400,7 +400,7 @@ prop('C16', obligations=['Props/C16.vo'],
      suites=[dict(name='names', project=proj_eval_result, definitive=True, what='lookup result differs from the proved model')],
      rule='every dotted path of depth 0..2 over 14 roots and a 10-key universe with . and !. at every position against a nested data map '
           '(maps, nil, typed nil, every scalar kind, keys colliding with builtin names), each also compared with null; unset and empty maps', trust=EV_TRUST)
-prop('C17', obligations=['Props/C17.vo'],
+prop('C17', obligations=['Props/C17.vo', 'Tie/BuiltinsTie.vo'],
      suites=[dict(name='strfun', project=proj_eval_result, definitive=True, what='string builtin result differs from the proved model')],
      rule='all (s,t) over {a,b} up to length 4/3 for prefix/suffix/substring/index/replace, every position -2..len+2 for left/right/mid/'
           'lpad/rpad, the algebraic laws on the implementation, trim/lower/upper incl. non-ASCII against Go strings, join/includes, regexp '
@@ -441,7 +441,7 @@ def equiv_sqrt(pa, pm, case):
     return abs(da - dm) * 1 <= unit16 if unit16 else da == dm
 
 
-prop('C18', obligations=['Props/C18.vo'],
+prop('C18', obligations=['Props/C18.vo', 'Tie/BuiltinsTie.vo'],
      suites=[dict(name='numfun', project=proj_eval_result, definitive=True, equiv=equiv_sqrt, what='numeric builtin / bit operator result differs from the proved model')],
      rule='34 hand-picked arguments (ties, signs, zero, near-integers) x 13 builtins; random arguments of 1-15 digits and exponent -15..15; '
           'max/min over lists of length 1..6; bit operators over integer pairs below 2^53 against two\'s-complement; sqrt against the '
@@ -449,10 +449,12 @@ prop('C18', obligations=['Props/C18.vo'],
           '(13 digits) and through the inverse laws; every text of up to 4 numeral parts through toFloat / toInt',
      trust=EV_TRUST + ['exp, ln, log are not modelled: judged pointwise against float64 math and the inverse laws only',
                        'sqrt: the decimal library rounds twice; a difference of one unit in the 16th digit from the proved root is accepted'])
-prop('C19', obligations=['Props/C19.vo'],
+prop('C19', obligations=['Props/C19.vo', 'Tie/BuiltinsTie.vo'],
      suites=[dict(name='datefun', project=proj_eval_result, definitive=True, what='date builtin result differs from the proved calendar model')],
      rule='17 years x 16 months (-40..60) x 13 days (-40..366) grid in zones UTC, +05:30, -03:00; random dates of years 1..9999, shifts, '
-          'times of day, known and unknown fixed-offset zones; DST zones, timeFormat, now/toDay judged on the implementation alone',
+          'times of day, known and unknown fixed-offset zones; timeFormat on about 4,000 layouts (every layout element, near misses, literal '
+          'text, random concatenations) x 13 times against the model of Time.Format; every name of the zone database and its mis-spellings; '
+          'DST zones, now/toDay judged on the implementation alone',
      trust=EV_TRUST + ['zones with daylight saving are outside the model (fixed offsets only)'])
 prop('C20', obligations=['Props/C20.vo'],
      suites=[dict(name='runner', project=proj_history, definitive=True, what='history observations differ from the proved runner model'),
